@@ -37,7 +37,8 @@ PROPS = dict(invariants=["SizeInv", "HandleInv", "ReadInv", "ConcatInv"], proper
 
 CHUNKS5 = {"a", "b", "n", "t", "o"}
 CHUNKS8 = CHUNKS5 | {"s", "f", "r"}
-MODES = {"w", "w+", "r+"}
+MODES = {"w", "w+", "r+", "r"}
+SELS = {"all", "first", "head", "cols"}
 
 TIERS = {
     "quick": dict(
@@ -49,10 +50,10 @@ TIERS = {
         ],
         behaviours=dict(Paths={1}, Handles={1}, ChunkIds={"b", "n"}, Hdrs={"none", "h1"}, Delims={"none", "c"},
                         Modes={"w", "r+"}, MaxDepth=3),
-        tour=dict(Paths={1}, Handles={1}, ChunkIds=CHUNKS5, Hdrs={"none", "h1"}, Delims={"none", "c"}, Modes=MODES,
-                  MaxDepth=4),
-        tour_keep=2000,
-        simulate=dict(num=300, depth=10, keep=2000,
+        tour=dict(Paths={1}, Handles={1}, ChunkIds={"a", "b", "n", "o"}, Hdrs={"none", "h1"}, Delims={"none", "c"},
+                  Modes=MODES, MaxDepth=4),
+        tour_keep=3000,
+        simulate=dict(num=200, depth=10, keep=1000,
                       consts=dict(Paths={1, 2}, Handles={1, 2}, ChunkIds=CHUNKS8, Hdrs={"none", "h1", "h2"},
                                   Delims={"none", "c", "t", "s"}, Modes=MODES)),
         random=400,
@@ -105,6 +106,7 @@ CLAUSE_TEXT = {
 
 def mc_constants(c, keep=False, export_at=0, acts=ALL_ACTS, max_rows=12):
     out = dict(c)
+    out.setdefault("Sels", SELS)
     out.update(MaxRows=max_rows, KeepHist=keep, ExportAt=export_at, Acts=set(acts))
     return out
 
@@ -112,21 +114,24 @@ def mc_constants(c, keep=False, export_at=0, acts=ALL_ACTS, max_rows=12):
 # ---- behaviours -> traces ----------------------------------------------------------------------
 def clean_events(beh):
     """events as exported by RecStoreMC (or generated here): keep the call, drop the model's outcome"""
-    return [{k: e[k] for k in ("op", "h", "p", "mode", "delim", "chunk", "hdr")} for e in beh]
+    return [dict({k: e[k] for k in ("op", "h", "p", "mode", "delim", "chunk", "hdr")}, sel=e.get("sel", "all")) for e in beh]
 
 
 def variant(i, seed):
     """concretisation of behaviour number i: dtype family, writer / reader entry points, observation schedule"""
     k = i + seed
     return dict(fam=k % len(rc.FAMILIES), writer=(k // 2) % len(rc.WRITERS), reader=(k // 3) % len(rc.READERS),
-                sched="every" if k % 4 else "sparse")
+                sched="every" if k % 4 else "sparse",
+                # the handle objects: SFile, or a bare recfile.Recfile (no header: only the calls that need none);
+                # one object per handle id opened again and again, or (1 in 5) a new object for every open
+                lib="recfile" if k % 7 == 3 else "sfile", reuse=k % 5 != 4)
 
 
 def exec_trace(job):
     """job = (id, events, variant dict, npaths, seed) -> record"""
     tid, events, v, npaths, seed = job
     kept, done = rc.run_trace(seed, v["fam"], events, npaths=npaths, writer=v["writer"], reader=v["reader"],
-                              sched=v["sched"])
+                              sched=v["sched"], lib=v.get("lib", "sfile"), reuse=v.get("reuse", True))
     return {"id": tid, "events": kept, "v": v, "npaths": npaths, "seed": seed, "done": done}
 
 
@@ -156,22 +161,43 @@ def parse_failing(failing):
 
 def signature(rec, step, clauses, cls):
     """<entry point>|<first failing clause>|<structural class of the step> (state of the file before the call, storage
-    kind, compatibility of the chunk; the mode only where the handle's mode is what matters)"""
+    kind, compatibility of the chunk; the mode only where the handle's mode is what matters; for calls on a handle how
+    the handle object was used before - input-side features only)"""
     e = rec["done"][step - 1]
-    entry = rc.entry_name(e, rec["v"]["writer"], rec["v"]["reader"] if e["op"] != "hread" else 0)
+    entry = rc.entry_name(e, rec["v"]["writer"], rec["v"]["reader"] if e["op"] != "hread" else 0, rec["v"].get("lib", "sfile"))
     op = e["op"]
     if op == "open":
-        c = "file=%s" % cls.get("pre")
+        c = "file=%s,object=%s" % (cls.get("pre"), object_use(rec, step))
     elif op == "hwrite":
-        c = "first_write=%s,chunk=%s,%s" % (cls.get("fresh"), cls.get("compat"), cls.get("kind"))
+        c = "first_write=%s,chunk=%s,%s,object=%s" % (cls.get("fresh"), cls.get("compat"), cls.get("kind"), object_use(rec, step))
     elif op == "hread":
-        c = "mode=%s,%s" % (cls.get("mode"), cls.get("kind"))
+        c = "mode=%s,%s,sel=%s,object=%s" % (cls.get("mode"), cls.get("kind"), e.get("sel", "all"), object_use(rec, step))
     elif op == "hclose":
         # what the handle wrote becomes observable only now: class of the chunks written through it since it was opened
-        c = "writes=%s,%s" % (handle_writes_class(rec["done"], step), cls.get("kind"))
+        c = "writes=%s,%s,object=%s" % (handle_writes_class(rec["done"], step), cls.get("kind"), object_use(rec, step))
     else:
         c = "file=%s,chunk=%s,%s" % (cls.get("pre"), cls.get("compat"), cls.get("kind"))
     return "%s|%s|%s" % (entry, clauses[0], c)
+
+
+def object_use(rec, step):
+    """how the handle object of the call at `step` was used before (for the signature only): `new` - first opened for
+    this; `reopened` - the object was opened before (closed or not) and opened again; plus `+partial_read` when a
+    partial read through it preceded a write since its last open"""
+    done = rec["done"]
+    h = done[step - 1]["h"]
+    opens = [i for i, e in enumerate(done[:step]) if e["op"] == "open" and e["h"] == h]
+    use = "new" if len(opens) <= 1 or not rec["v"].get("reuse", True) else "reopened"
+    since = done[(opens[-1] if opens else 0):step]
+    partial = False
+    for e in since:
+        if e["h"] != h:
+            continue
+        if e["op"] == "hread" and e.get("sel", "all") != "all":
+            partial = True
+        elif e["op"] == "hwrite" and partial:
+            return use + "+partial_read_before_write"
+    return use
 
 
 def handle_writes_class(done, step):
@@ -236,7 +262,7 @@ def judge(ctx, recs, what, npaths=2, nhandles=2, allow_out_of_scope=False):
         e = rec["done"][step - 1]
         sig = signature(rec, step, clauses, cls)
         whatv = ("step %d %s%s: not allowed by RecStore.tla, clause(s) %s - %s; observed res=%s%s files=%s" %
-                 (step, rc.entry_name(e, rec["v"]["writer"], rec["v"]["reader"]),
+                 (step, rc.entry_name(e, rec["v"]["writer"], rec["v"]["reader"], rec["v"].get("lib", "sfile")),
                   "" if not e["chunk"]["rows"] else " chunk descr=%s rows=%s" % (e["chunk"]["descr"], e["chunk"]["rows"]),
                   "+".join(clauses), CLAUSE_TEXT.get(clauses[0], clauses[0]),
                   {k: v for k, v in e["res"].items() if v not in ("none", [], -1, ["none", "na"])},
@@ -278,8 +304,9 @@ def random_events(rng, npaths=2, nhandles=2):
         tok[0] += k
         return {"descr": [base, order], "rows": rows}
 
-    def E(op, h=0, p=0, mode="none", delim="none", c=None, hdr="none"):
-        ev.append({"op": op, "h": h, "p": p, "mode": mode, "delim": delim, "chunk": c or dict(rc.NO_CHUNK), "hdr": hdr})
+    def E(op, h=0, p=0, mode="none", delim="none", c=None, hdr="none", sel="all"):
+        ev.append({"op": op, "h": h, "p": p, "mode": mode, "delim": delim, "chunk": c or dict(rc.NO_CHUNK), "hdr": hdr,
+                   "sel": sel})
 
     for _ in range(n):
         free_h = [h for h in range(1, nhandles + 1) if h not in open_h]
@@ -292,17 +319,23 @@ def random_events(rng, npaths=2, nhandles=2):
                 c = chunk(open_h[h])
                 E("hwrite", h=h, p=open_h[h], c=c, hdr=rng.choice(["none", "none", "h1", "h2"]))
                 cur.setdefault(open_h[h], c["descr"][0])
-            elif q < 0.8:
-                E("hread", h=h, p=open_h[h])
+            elif q < 0.85:
+                E("hread", h=h, p=open_h[h], sel=rng.choice(["all", "first", "head", "cols"]))
             else:
                 E("hclose", h=h, p=open_h[h])
                 del open_h[h]
-        elif free_h and free_p and r < 0.6:
-            h, p = rng.choice(free_h), rng.choice(free_p)
-            m = rng.choice(["w", "r+", "r+", "w+"])
+        elif r < 0.62 and (free_h or open_h):
+            # open a handle object - a new one, a closed one again, or (1 in 3) one that is still open
+            pool = free_h if free_h and (not open_h or rng.random() < 0.67) else sorted(open_h)
+            h = rng.choice(pool)
+            ok_p = [p for p in range(1, npaths + 1) if p not in [q for g, q in open_h.items() if g != h]]
+            if not ok_p:
+                continue
+            p = rng.choice(ok_p)
+            m = rng.choice(["w", "w", "r+", "r+", "r+", "w+", "r"])
             E("open", h=h, p=p, mode=m, delim=rng.choice(["none", "none", "c", "t", "s"]))
             open_h[h] = p
-            if m != "r+":
+            if m in ("w", "w+"):
                 cur.pop(p, None)
         elif free_p:
             p = rng.choice(free_p)
@@ -374,8 +407,14 @@ def run(ctx):
         keep = maximal(edges)
         nedges, nmax = len(edges), len(keep)
         if len(keep) > T["tour_keep"]:
+            # the path-level writes (chunk x header x delimiter) are most of the edges: 60% of the budget goes to the
+            # histories that end in a write through / the close of a handle (where a handle's past can show), the rest
+            # to the others
             rng = random.Random(ctx.seed * 7919 + 11)
-            keep = sorted(rng.sample(keep, T["tour_keep"]), key=json.dumps)
+            hot = [b for b in keep if b[-1]["op"] in ("hwrite", "hclose")]
+            cold = [b for b in keep if b[-1]["op"] not in ("hwrite", "hclose")]
+            nhot = min(len(hot), max(T["tour_keep"] * 6 // 10, T["tour_keep"] - len(cold)))
+            keep = sorted(rng.sample(hot, nhot) + rng.sample(cold, min(len(cold), T["tour_keep"] - nhot)), key=json.dumps)
         if not keep:
             raise MachineryError("empty transition tour")
         recs = run_and_judge(ctx, keep, "replay: transition tour", 2, nid, offset=1)
@@ -575,12 +614,18 @@ def selftest(ctx, all_recs):
 
 
 MECH_REQUIRE = ["MOpen", "MWrite", "MRead", "MClose", "MPathWrite", "MPathAppend"]
-MECH_INVS = ["SizeLineInv", "CacheInv", "CppCountInv", "RowsInv", "RewriteInv"]
-# deviating variant -> (mechanism invariant it must violate or None, clauses RecStoreTrace must name on its behaviours)
+MECH_INVS = ["SizeLineInv", "CacheInv", "CppCountInv", "RowsInv", "RewriteInv", "ClosedInv", "StreamInv"]
+# deviating variant -> (mechanism invariant it must violate or None, clauses RecStoreTrace must name on its behaviours,
+#                       the small alphabet in which it shows within four calls)
 MECH_DEVIATIONS = {
-    "FixedCompat": ("RowsInv", {"not_rejected", "rows"}),
-    "FixedCount": ("CppCountInv", {"read_rows"}),
-    "FixedMissing": (None, {"unexpected_error"}),
+    "FixedCompat": ("RowsInv", {"not_rejected", "rows"}, dict(ChunkIds={"a", "n", "o"}, Sels={"all"})),
+    "FixedCount": ("CppCountInv", {"read_rows"}, dict(ChunkIds={"a", "n"}, Sels={"all"})),
+    "FixedMissing": (None, {"unexpected_error"}, dict(ChunkIds={"a"}, Sels={"all"})),
+    # one object used for a second file: open 'w'; write; open 'w' again; write
+    "FixedClose": ("ClosedInv", {"file_state"}, dict(ChunkIds={"a", "n"}, Sels={"all"}, deeper=1)),
+    # create (3 rows); open 'r+'; partial read; write: the rows must land at the end of the file
+    # (and close, after which the file is judged: one call deeper)
+    "FixedSeek": ("StreamInv", {"rows", "stored_count", "file_state"}, dict(ChunkIds={"b"}, Sels={"all", "first", "cols"}, deeper=1)),
 }
 
 
@@ -592,10 +637,10 @@ def mechanism(ctx):
     the code (a constant) must be *seen* by both.  A lead generator, never a verdict about esutil."""
     M = TIERS[ctx.tier]["mechanism"]
     base = dict(ChunkIds={"a", "b", "n", "o"}, Hdrs={"none", "h1"}, Delims={"none", "c"}, Modes=MODES, PathOps=True,
-                FixedCompat=True, FixedCount=True, FixedMissing=True)
+                FixedCompat=True, FixedCount=True, FixedMissing=True, FixedClose=True, FixedSeek=True, Sels=SELS)
 
     # the deviations need four calls to show (create; open r+; write; read through the handle): smaller alphabet, deeper
-    small = dict(ChunkIds={"a", "n", "o"}, Hdrs={"none"}, Modes={"w", "r+"})
+    small = dict(Hdrs={"none"}, Modes={"w", "r+"})
 
     def consts(depth, keep, export_at, **dev):
         return dict(base, MaxDepth=depth, KeepHist=keep, ExportAt=export_at, **dev)
@@ -646,14 +691,16 @@ def mechanism(ctx):
 
     # the runs are independent: a few at a time (JVM start-up dominates them)
     jobs = [("inv", invariants, ())]
-    jobs += [("violates " + dev, violates, (dev, inv)) for dev, (inv, _) in sorted(MECH_DEVIATIONS.items()) if inv]
+    jobs += [("violates " + dev, violates, (dev, inv)) for dev, (inv, _, _) in sorted(MECH_DEVIATIONS.items()) if inv]
     jobs += [("tour repaired", tour, ("repaired variant refines RecStore", M["tour_depth"]))]
     saved_traces, first_run = ctx.traces, len(ctx.tlc_runs)
     with ThreadPoolExecutor(4) as ex:
         futs = {name: ex.submit(fn, *args) for name, fn, args in jobs}
         for dev in sorted(MECH_DEVIATIONS):
-            futs["tour " + dev] = ex.submit(lambda d=dev: tour("%s=FALSE is rejected" % d, M["dev_depth"],
-                                                               **dict(small, **{d: False})))
+            over = dict(MECH_DEVIATIONS[dev][2])
+            deeper = over.pop("deeper", 0)
+            futs["tour " + dev] = ex.submit(lambda d=dev, o=over, k=deeper: tour("%s=FALSE is rejected" % d, M["dev_depth"] + k,
+                                                                                 **dict(small, **dict(o, **{d: False}))))
         results = {name: f.result() for name, f in futs.items()}
     ctx.traces = saved_traces                   # behaviours of a model, not of the implementation
     ctx.tlc_runs[first_run:] = sorted(ctx.tlc_runs[first_run:], key=lambda r: r["what"])   # completion order -> fixed order
@@ -663,7 +710,7 @@ def mechanism(ctx):
         raise MachineryError("the repaired mechanism model does not refine RecStore: %d of %d behaviours rejected %s" %
                              (nrej, n, clauses))
     summary = {"repaired": {"behaviours": n, "rejected": 0}}
-    for dev, (_, want) in sorted(MECH_DEVIATIONS.items()):
+    for dev, (_, want, _) in sorted(MECH_DEVIATIONS.items()):
         n, nrej, clauses = results["tour " + dev]
         if not nrej or not (want & set(clauses)):
             raise MachineryError("mechanism self-test: deviation %s=FALSE not rejected as expected (%d rejected, %s)" %
@@ -678,7 +725,7 @@ def replay(ctx, case):
     v = case["v"]
     rec = exec_trace((1, case["events"], v, case.get("npaths", 2), case["seed"]))
     for e in rec["done"]:
-        print("replay %-7s %-40s res=%s%s" % (e["op"], rc.entry_name(e, v["writer"], v["reader"]),
+        print("replay %-7s %-40s res=%s%s" % (e["op"], rc.entry_name(e, v["writer"], v["reader"], v.get("lib", "sfile")),
                                               {k: x for k, x in e["res"].items() if x not in ("none", [], -1, ["none", "na"])},
                                               " (%s)" % e["exc"] if "exc" in e else ""))
         for p, o in enumerate(e["obs"], 1):
